@@ -174,6 +174,26 @@ def w_misc(arg):
         s = judge(cfg, kind, p)
         if s:
             acc.bad(s, {"cfg": cfg, "kind": kind, "p": list(p)})
+    # re-entrancy (preemption bound 1, engine.interleave): each reply decoder suspended before every one of its source
+    # lines while the same decoder - or one of its siblings - decodes another reply
+    from engine.util import interleaved_ok
+    pms_ = pm(cfg)
+    aa_ = 0x4840D6
+    d4 = [(F.short_ap(4, (1 << 24) | (5 << 19) | (6 << 15) | (1 << 13) | 0x1838, aa_),), (F.short_ap(5, (3 << 24) | (17 << 19) | (9 << 15) | (2 << 13) | 0x0AAA, aa_),),
+          (F.short_ap(4, (2 << 24) | (30 << 19) | (15 << 15) | (3 << 13) | 0x0C10, aa_),)]
+    d5 = [(F.short_ap(5, 0x0AAA, aa_),), (F.short_ap(5, 0x1555, aa_),), (F.long_ap(21, 0x0E38, 0, aa_),)]
+    d11 = [(F.df11(aa_, 5, 0),), (F.df11(aa_, 2, 37),), (F.df11(0xABCDEF, 7, 64),)]
+    for fn, argsets, sibs in () if cfg != "P" else ((pms_.surv.fs, d4, [(pms_.surv.dr, d4[1]), (pms_.surv.um, d4[2])]), (pms_.surv.dr, d4, [(pms_.surv.fs, d4[1])]),
+                             (pms_.surv.um, d4, [(pms_.surv.dr, d4[2])]), (pms_.surv.identity, d5[:2], [(pms_.common.idcode, d5[2])]),
+                             (pms_.common.idcode, d5, []), (pms_.allcall.interrogator, d11, [(pms_.allcall.capability, d11[1])]),
+                             (pms_.allcall.capability, d11, [(pms_.allcall.icao, d11[2])])):
+        bad_, nsch = interleaved_ok(fn, argsets, sibs)
+        acc.n += nsch
+        acc.c["interleaved_schedules"] += nsch
+        for a_, nm_, k_ in bad_:
+            label = "%s.%s" % (fn.__module__.split(".")[-1], getattr(fn, "__wrapped__", fn).__name__)
+            acc.bad(("" if cfg == "P" else "[C]") + "%s:answer_changes_when_another_call_runs_in_between" % label,
+                    {"cfg": cfg, "kind": "interleave", "p": [label, a_[0], nm_, k_]})
     addrs = [0, 0xFFFFFF, 0x406B90, 0xABCDEF] + [1 << i for i in range(24)]
     # CA x bg-1 on DF11 (every bit of AA and PI)
     for ca in range(8):
@@ -333,6 +353,8 @@ def replay(case):
         from engine.util import replay_sequence
         s = replay_sequence(seq_thunks(case["tag"]), case["sequence"])
         return [(s, case)] if s else []
+    if case["kind"] == "interleave":
+        return [(s_, c_) for s_, c_ in w_misc((case["cfg"], 0))["viols"] if c_.get("kind") == "interleave" and c_["p"][0] == case["p"][0]]
     if case["kind"] == "periodic":
         return [(s_, c_) for s_, c_ in w_periodic(case["cfg"])["viols"] if c_["p"] == case["p"]]
     s = judge(case["cfg"], case["kind"], tuple(case["p"]))
